@@ -139,20 +139,22 @@ def termPrefix (s : Inp) : Option (List Char × Inp) :=
     | [] => none
     | c :: r'' => if c = '*' && atTermEnd r'' then some (t ++ ['*'], r'') else none
 
+/-- `TERM_START_CHAR_GLOB = _{ TERM_START_CHAR | STAR | QUESTIONMARK }` -/
+def globStart (s : Inp) : Option (List Char × Inp) :=
+  match termStartChar s with
+  | some x => some x
+  | none =>
+    match s with
+    | [] => none
+    | c :: r => if c = '*' || c = '?' then some ([c], r) else none
+
 /-- `TERM_GLOB = @{ TERM_START_CHAR_GLOB ~ TERM_CHAR_GLOB* ~ &TERM_END_CHAR }` -/
 def termGlob (s : Inp) : Option (List Char × Inp) :=
-  let start : Option (List Char × Inp) :=
-    match termStartChar s with
-    | some x => some x
-    | none => match s with
-      | '*' :: r => some (['*'], r)
-      | '?' :: r => some (['?'], r)
-      | _ => none
-  match start with
+  match globStart s with
   | none => none
   | some (a, r) =>
-    let (m, r') := termCharsGlob r
-    if atTermEnd r' then some (a ++ m, r') else none
+    let p := termCharsGlob r
+    if atTermEnd p.2 then some (a ++ p.1, p.2) else none
 
 /-- `(ESC_CHAR | !DQUOTE ~ ANY)*` followed by the closing `DQUOTE`: the text between the quotes. -/
 def phraseBody : Inp → Option (List Char × Inp)
